@@ -458,3 +458,37 @@ def run_write_free(prog, rep):
     rule.check(not any(MUTATING.match(c.callee.get('name') or '') for c in orr.calls()), '%s|no-write' % orr.q, rep.where(orr), orr.q,
                'openRoot performs no mutating HDF5 call')
     return rule
+
+
+def run_exists(prog, rep):
+    """The backend's existence test decides create-vs-open; it must be exactly 'the path can be opened':
+    any further condition (size, content) makes it disagree with the front-end's exists() for some file and
+    turns a ReadOnly/ReadWrite open of an existing file into a truncating create."""
+    from ..absint import GenericInterp
+    rule = rep.rule('R-EXISTS', 'FileHDF5::fileExists is true exactly when the named file can be opened; front and back end test the same path', floor=2)
+    f = prog.fn(FH + '::fileExists')
+    it = GenericInterp(prog)
+    res = it.enumerate(f, this='THIS', args=[('name',)])
+    problems = []
+    for assign, out, log, fields in res:
+        if out[0] != 'ret' or not isinstance(out[1], bool):
+            problems.append('outcome %r' % (out,))
+            continue
+        opened = [v for k, v in assign.items() if k[0] == 'truthy' and 'ifstream' in repr(k) or (k[0] == 'bool' and k[1] in ('is_open', 'good'))]
+        others = [k for k in assign if not (k[0] == 'truthy' and 'ifstream' in repr(k)) and not (k[0] == 'bool' and k[1] in ('is_open', 'good', 'fail'))]
+        if others:
+            problems.append('the verdict also depends on %s' % [repr(k)[:80] for k in others])
+        if not opened:
+            problems.append('verdict %s without testing that the stream opened' % out[1])
+        elif out[1] is not opened[0]:
+            problems.append('returns %s although the stream %s' % (out[1], 'opened' if opened[0] else 'did not open'))
+    stream_on_name = any(n.k == 'var' and 'ifstream' in (n.get('type') or '') and "'name'" in repr(term(n.c[0])) for n in f.walk() if n.k == 'var' and n.c and n.c[0] is not None)
+    if not stream_on_name:
+        problems.append('the probe stream is not opened on the given name')
+    rule.check(not problems, 'fileExists|predicate', rep.where(f), f.q, 'true iff a read stream on the name opens (%d abstract paths)' % len(res), '; '.join(sorted(set(problems))))
+    # both existence tests are applied to the name that is opened
+    fo = prog.fn('nix::File::open')
+    ex = [c for c in fo.calls() if (c.callee.get('q') or '') == 'boost::filesystem::exists']
+    okp = bool(ex) and ("'name'" in repr(term(ex[0])))
+    rule.check(okp, 'File::open|exists-same-path', rep.where(fo), fo.q, 'the front-end existence test is applied to the path that is opened')
+    return rule
